@@ -5,7 +5,7 @@ CONSTANTS
   BatchN <- G_route_N
   MaxQueue = 2
   BufCap = 2
-  SubIds = {1, 2}
+  SubIds = {1, 2, 101, 102}
   Dev = {}
   PeerMenu = {}
   MaxPeer = 0
